@@ -32,6 +32,7 @@ func runC08(c *Ctx) {
 	tableWiring(c, "R6")
 	c.Rule("R7", "restart invisibility: one recovery level for writers and rebuild; persisted FSM state is the applied one; stop waits for raft", 8)
 	recoveryHeightAgreement(c, "R7")
+	cacheTilesPersistedAlways(c, "R7")
 	_, applyAdd := fsmApplyGuard(newCtx(c.P, c.Prop, c.Tier), "R7")
 	fsmApplyAdd(c, "R7", applyAdd)
 	nodeCloseWaits(c, "R7")
